@@ -135,6 +135,14 @@ func runMSM(r *core.Result, mc msmCase, nbTasks int, mont bool, desc string) {
 	if msg := validSame(out, mc.want); msg != "" {
 		vio(r, "c09.msm", "banderwagon.Element.MultiExp", desc, "sum s_i*P_i = "+affStr(mc.want), msg)
 	}
+	if len(mc.pts) <= 3 {
+		// the result belongs to the caller: writing through the returned pointer must not touch package state
+		out.Add(out, &banderwagon.Generator)
+		id, g := banderwagon.Identity, banderwagon.Generator
+		if msg := validSame(&id, ref.Identity()); msg != "" || validSame(&g, ref.Gen()) != "" {
+			vio(r, "c09.result_alias", "banderwagon.Element.MultiExp", desc, "package-level Identity/Generator unaffected by writing to the returned element", "package variable changed: "+msg)
+		}
+	}
 	for i := range sc {
 		if sc[i] != keepS[i] || mc.pts[i] != keepP[i] {
 			vio(r, "c09.input_intact", "banderwagon.Element.MultiExp", desc, "points and scalars unchanged", fmt.Sprintf("index %d modified", i))
@@ -283,6 +291,48 @@ func c09Units(ctx *core.Ctx) []core.Unit {
 				vio(r, "c09.mismatch", "ipa.MultiScalar", desc, "an error", "nil")
 			}
 		}
+	}})
+	us = append(us, core.Unit{Name: "same slices reused with updated content between calls", Run: func(ctx *core.Ctx, r *core.Result) {
+		needRef()
+		c := conf()
+		for _, n := range []int{1, 2, 3, 8, 40} {
+			pts := make([]banderwagon.Element, n)
+			scal := make([]fr.Element, n)
+			refPts := make([]ref.Pt, n)
+			ss := make([]*big.Int, n)
+			for step := 0; step < 5; step++ {
+				// overwrite the SAME backing arrays with new content
+				for i := 0; i < n; i++ {
+					k := (i*7 + step*13) % 256
+					pts[i] = reprOf(c.SRS[k], (i+step)%nRepr)
+					refPts[i] = ref.SRS()[k]
+					ss[i] = msmScalar(ctx.Seed, i+step*3, 0)
+					scal[i] = frFromBig(ss[i])
+				}
+				if step == 3 && n > 1 { // a single element updated in place
+					pts[0].Double(&pts[0])
+					refPts[0] = ref.Add(refPts[0], refPts[0])
+				}
+				want := ref.MSM(refPts, ss)
+				desc := fmt.Sprintf("call #%d over the same %d-element slices (content replaced in place)", step+1, n)
+				res, err := ipa.MultiScalar(pts, scal)
+				r.Evals++
+				r.Nontrivial++
+				if err != nil {
+					vio(r, "c09.msm", "ipa.MultiScalar", desc, "a result", err.Error())
+				} else if msg := validSame(&res, want); msg != "" {
+					vio(r, "c09.history", "ipa.MultiScalar", desc, affStr(want), msg)
+				}
+				var rr banderwagon.Element
+				out, err := rr.MultiExp(pts, scal, banderwagon.MultiExpConfig{NbTasks: 3, ScalarsMont: true})
+				if err != nil {
+					vio(r, "c09.msm", "banderwagon.Element.MultiExp", desc, "a result", err.Error())
+				} else if msg := validSame(out, want); msg != "" {
+					vio(r, "c09.history", "banderwagon.Element.MultiExp", desc, affStr(want), msg)
+				}
+			}
+		}
+		r.Sample(map[string]interface{}{"history": "5 calls over the same points/scalars slices, content replaced between calls, one element doubled in place"})
 	}})
 	// (b) internal entry
 	cs := []int{4, 5, 6, 7, 8, 9, 10, 11, 12, 13, 14, 15, 16}
